@@ -246,6 +246,10 @@ def _factor_int(n):
     return out
 
 
+def _isE(b):
+    return isinstance(b, str) and b == "E"
+
+
 class RF:
     """num / prod(factor ** power); indexable like the pair (num, den)."""
 
@@ -308,6 +312,7 @@ class Atomiser:
     def __init__(self, hyps=()):
         self.hyps_raw = list(hyps)
         self.hyps = None
+        self.normalise_exp = True     # exp(-u) is represented as 1/atom(exp(u)); switch off to keep exp(-u) as an atom
         self.constraints = []
         self.side = []            # (description, z3 Bool) side conditions relied upon
         self.atoms = {}           # key string -> z3 Real
@@ -394,11 +399,23 @@ class Atomiser:
 
     # -- exponent arithmetic through sympy
     def expo(self, t):
-        """sympy expression of an exponent term (transcendental sub-terms become atom symbols)."""
+        """sympy expression of an exponent term.  sqrt/pow/exp stay native sympy powers (so that
+        sqrt(a)**2 = a), logs and other transcendentals become atom symbols."""
         def opaque(u):
+            name = u.decl().name()
+            ch = u.children()
+            if name == "sqrt":
+                return sp.sqrt(rec(ch[0]))
+            if name == "pow":
+                return rec(ch[0]) ** rec(ch[1])
+            if name == "exp":
+                return sp.exp(rec(ch[0]))
             rf = self.rf(u)
             return self.rf_sympy(rf)
-        return sp.nsimplify(to_sympy(t, self.symtab, opaque=opaque), rational=True)
+
+        def rec(v):
+            return to_sympy(v, self.symtab, opaque=opaque)
+        return sp.nsimplify(rec(t), rational=True)
 
     def rf_sympy(self, rf):
         return to_sympy(rf[0], self.symtab) / to_sympy(rf[1], self.symtab)
@@ -567,7 +584,7 @@ class Atomiser:
         e = sp.nsimplify(sp.expand(sp.cancel(e)), rational=True)
         if e == 0:
             return self.const(z3.RealVal(1))
-        if b == "E":
+        if _isE(b):
             return self.exp_rf(e)
         # u ** (g / log u) = exp(g)
         lk = "log:" + self.base_key(b)
@@ -619,7 +636,7 @@ class Atomiser:
                 self.__dict__.setdefault("atom_info", {})[new_atom.decl().name()] = (b, new_unit)
                 self._link_to_base(b, new_unit, new_atom)
                 return self._atom_pow(new_atom, int(r.p))
-        if e.could_extract_minus_sign():
+        if e.could_extract_minus_sign() and not (_isE(b) and not self.normalise_exp):
             r_ = self.family_atom(b, -e)
             return self.rf_inv(r_)
         atom = self.new_atom(f"{key}^({e})", positive=True, desc=f"({self._bdesc(b)})**({e})")
@@ -696,7 +713,7 @@ class Atomiser:
                 ez = self.sympy_to_z3(unit)
             except Unsupported:
                 continue
-            if b == "E":
+            if _isE(b):
                 c += [z3.Implies(ez > 0, atom > 1), z3.Implies(ez < 0, atom < 1), z3.Implies(ez == 0, atom == 1), atom >= 1 + ez]
                 continue
             bt = bterm(b)
@@ -707,8 +724,8 @@ class Atomiser:
             for j in range(i + 1, len(fams)):
                 k1, b1, u1, a1 = fams[i]
                 k2, b2, u2, a2 = fams[j]
-                if b1 == "E" or b2 == "E":
-                    if b1 == "E" and b2 == "E":
+                if _isE(b1) or _isE(b2):
+                    if _isE(b1) and _isE(b2):
                         try:
                             e1, e2 = self.sympy_to_z3(u1), self.sympy_to_z3(u2)
                         except Unsupported:
@@ -775,7 +792,7 @@ class Atomiser:
         """log(u) = sum e_i log(b_i)."""
         total = None
         for b, e in self.factors(u):
-            if b == "E":
+            if _isE(b):
                 piece = self.const(self.sympy_to_z3(e))
             else:
                 key = "log:" + self.base_key(b)
